@@ -15,7 +15,7 @@ from ..refs import peaks_ref as ref
 from .c11 import lcg_word
 
 ROOT = 3
-TOLS = (0.5, 1.5, 2.5)
+TOLS = (0.5, 1.0, 1.5, 2.0, 2.5)   # between the levels of the alphabets and exactly on them
 
 
 def _roots(alpha, lmax, tag):
@@ -26,13 +26,17 @@ def _roots(alpha, lmax, tag):
     return cs
 
 
+def _stretch(alpha, lmax, ks):
+    return [{'fam': 'stretch', 'alpha': list(alpha), 'root': list(w), 'lmax': lmax, 'ks': list(ks)} for w in itertools.product(alpha, repeat=2)]
+
+
 def build(tier, seed):
     if tier == 'quick':
-        cases = _roots((-2, -1, 0, 1, 2), 7, 'S5') + _roots((-3, -2, -1, 0, 1, 2, 3), 5, 'S7')
-        bounds = {'S5 {-2..2}': 7, 'S7 {-3..3}': 5}
+        cases = _roots((-2, -1, 0, 1, 2), 7, 'S5') + _roots((-3, -2, -1, 0, 1, 2, 3), 5, 'S7') + _stretch((-2, -1, 0, 1, 2), 5, (3, 9, 41))
+        bounds = {'S5 {-2..2}': 7, 'S7 {-3..3}': 5, 'S5 words of length 2..5 with every sample held for k steps, k in': [3, 9, 41]}
     else:
-        cases = _roots((-2, -1, 0, 1, 2), 8, 'S5') + _roots((-3, -2, -1, 0, 1, 2, 3), 6, 'S7')
-        bounds = {'S5 {-2..2}': 8, 'S7 {-3..3}': 6}
+        cases = _roots((-2, -1, 0, 1, 2), 8, 'S5') + _roots((-3, -2, -1, 0, 1, 2, 3), 6, 'S7') + _stretch((-2, -1, 0, 1, 2), 6, (3, 9, 41, 700))
+        bounds = {'S5 {-2..2}': 8, 'S7 {-3..3}': 6, 'S5 words of length 2..6 with every sample held for k steps, k in': [3, 9, 41, 700]}
         for j in range(64):
             sd = 64 * seed + j
             cases.append({'fam': 'long', 'seed': sd, 'n': [50, 200, 1000, 5000][j % 4], 'levels': [7, 9, 13][j % 3],
@@ -46,7 +50,7 @@ def build(tier, seed):
         'bounds': bounds,
         'required_classes': ['adjacent-zeros', 'leading-zero', 'sign-change-without-zero', 'first-excursion-starts-at-0',
                              'first-excursion-max-at-0', 'excursion-3-levels', 'tie-in-excursion', 'zero-valued-reported',
-                             'tol-removes-something', 'same-array-sequence'],
+                             'tol-removes-something', 'same-array-sequence', 'stretched-long-record'],
         'assumptions': ['index-valued outputs are compared exactly', 'reference: scanning loops in mcheck/refs/peaks_ref.py',
                         'switched peaks of constant series are outside the statement (get_peak_array_indices needs a non-constant series)'],
     }
@@ -56,11 +60,11 @@ def as_ints(x):
     return [int(v) for v in np.asarray(x).ravel().tolist()]
 
 
-def check_word(r, w, fam, containers=('f', 'i', 'l'), tols=None):
+def check_word(r, w, fam, containers=('f', 'i', 'l'), tols=None, label=None):
     tols = TOLS if tols is None else tols
     n = len(w)
     r.states += 1
-    sub0 = {'fam': fam, 'w': w if n <= 16 else 'long'}
+    sub0 = {'fam': fam, 'w': w if n <= 16 else (label or 'long')}
     # ---- zero crossings: defined for every series
     zs = [i for i in range(n) if w[i] == 0]
     if any(b - a == 1 for a, b in zip(zs, zs[1:])):
@@ -260,11 +264,23 @@ def run_case(case):
     fam = case['fam']
     if fam == 'long':
         w = lcg_word(case['seed'], case['n'], case['levels'], case['stick'])
-        check_word(r, w, 'long:%d:%d:%d:%d' % (case['seed'], case['n'], case['levels'], case['stick']), containers=('f',), tols=TOLS[:2])   # the open finding of tol=2.5 is keyed by enumerated words only
+        check_word(r, w, 'long:%d:%d:%d:%d' % (case['seed'], case['n'], case['levels'], case['stick']), containers=('f',), tols=(0.5, 1.0, 1.5))   # the open finding of tol=2.5 is keyed by enumerated words only
         return r
     root = tuple(case['root'])
     alpha = case['alpha']
     lmax = case['lmax']
+    if fam == 'stretch':
+        # every word of the sub-tree with each sample held for k steps: long records with few crossings / few excursions
+        # (results that depend on the record being short, e.g. on the iteration order of a hash set of small indices)
+        for n in range(max(len(root), 2), lmax + 1):
+            for ext in itertools.product(alpha, repeat=n - len(root)):
+                base_w = list(root + ext)
+                for k in case['ks']:
+                    w = [v for v in base_w for _ in range(k)]
+                    r.transitions += 1
+                    r.cls('stretched-long-record')
+                    check_word(r, w, 'stretch', containers=('f',), tols=(0.5, 1.5), label='%r held x%d' % (base_w, k))
+        return r
     if len(root) >= 2:
         check_word(r, list(root), fam)
         check_sequence(r, list(root), fam)
